@@ -41,6 +41,12 @@ pub struct Case {
     /// allow_immediate_stop_before_first_transfer = Some(true)
     #[serde(default)]
     pub imm_stop: bool,
+    /// at this poll index (before the drain) a further object U is added to the main object's queue, with a
+    /// transfer start time far beyond the horizon, and - when `late_publish` is false - never published
+    #[serde(default)]
+    pub late_add: Option<usize>,
+    #[serde(default)]
+    pub late_publish: bool,
 }
 
 fn objects(c: &Cfg) -> Vec<ObjSpec> {
@@ -84,6 +90,7 @@ pub struct G {
     pub triggers_accepted: u64,
     pub fdt_reemissions: u64,
     pub removals: u64,
+    pub late_adds: u64,
     pub removals_mid_transfer: u64,
     pub outcomes: std::collections::BTreeSet<u64>,
 }
@@ -111,10 +118,18 @@ pub fn run_case(case: &Case, g: &mut G) -> Option<(String, String)> {
         if case.imm_stop {
             objs[0].immediate_stop = Some(true);
         }
+        let n_initial = objs.len();
+        if case.late_add.is_some() {
+            let mut u = ObjSpec::simple(8, 3);
+            u.oti = Some(OtiSpec::new(Scheme::NoCode, 4, 2, 0, true));
+            u.prio = 1;
+            u.start_ms = Some(100_000 * TICK as i64);
+            objs.push(u);
+        }
         let cat = Arc::new(objs);
         let mut removed_li: Option<usize> = None;
         let mut sys = SendSys::new(&sess, cat.clone());
-        for k in 0..cat.len() {
+        for k in 0..n_initial {
             sys.apply(&Ev::Add(k));
             if sys.toi_of[k].is_none() {
                 return Some(("C14/add-refused".into(), format!("add_object refused: {:?}", sys.log.last())));
@@ -143,6 +158,16 @@ pub fn run_case(case: &Case, g: &mut G) -> Option<(String, String)> {
                         }
                     }
                 }
+            }
+            if case.late_add == Some(pi) {
+                sys.apply(&Ev::Add(n_initial));
+                if sys.toi_of[n_initial].is_none() {
+                    return Some(("C14/add-refused".into(), format!("add_object refused: {:?}", sys.log.last())));
+                }
+                if case.late_publish {
+                    sys.apply(&Ev::Publish);
+                }
+                g.late_adds += 1;
             }
             if case.remove == Some(pi) {
                 sys.apply(&Ev::Remove(0));
@@ -175,6 +200,16 @@ pub fn run_case(case: &Case, g: &mut G) -> Option<(String, String)> {
         }
         if let Some(p) = &sys.panicked {
             return Some((format!("C14/panic/{}", panic_sig(p)), format!("panic: {}", p)));
+        }
+        // the late object U (start time beyond every instant of this run) never sends anything
+        if let Some(Some(u_toi)) = sys.toi_of.get(n_initial) {
+            for it in &sys.log {
+                if let Item::Pkt(p) = it {
+                    if p.toi == *u_toi {
+                        return Some(("C14/packet-before-start-time/late-added-object".into(), format!("packet of the object added at poll {:?} ({}) emitted at t={}ms, its transfer start time is {}ms", case.late_add, if case.late_publish { "published" } else { "never published" }, p.t_ms, 100_000 * TICK)));
+                    }
+                }
+            }
         }
         // ---- oracle over the log ----
         let horizon = poll_ends.last().map(|p| p.0).unwrap_or(0);
@@ -432,7 +467,7 @@ pub fn run(thorough: bool) -> i32 {
                     sched.push(steps[cc % steps.len()]);
                     cc /= steps.len();
                 }
-                let case = Case { cfg: cfg.clone(), schedule: sched.clone(), trigger: None, remove: None, imm_stop: false };
+                let case = Case { cfg: cfg.clone(), schedule: sched.clone(), trigger: None, remove: None, imm_stop: false, late_add: None, late_publish: false };
                 if let Some((k, w)) = run_case(&case, &mut g) {
                     found.entry(k).or_insert((w, case));
                 }
@@ -441,7 +476,19 @@ pub fn run(thorough: bool) -> i32 {
                 if code % 7 == 3 {
                     for ri in 0..npoll {
                         for imm_stop in [false, true] {
-                            let case = Case { cfg: cfg.clone(), schedule: sched.clone(), trigger: None, remove: Some(ri), imm_stop };
+                            let case = Case { cfg: cfg.clone(), schedule: sched.clone(), trigger: None, remove: Some(ri), imm_stop, late_add: None, late_publish: false };
+                            if let Some((k, w)) = run_case(&case, &mut g) {
+                                found.entry(k).or_insert((w, case));
+                            }
+                        }
+                    }
+                }
+                // one deviation: a further object with a far start time added (published or not) at every poll index
+                // (crossed with the fixed sub-grid of schedules whose code is 5 modulo 7)
+                if code % 7 == 5 {
+                    for ai in 0..npoll {
+                        for late_publish in [false, true] {
+                            let case = Case { cfg: cfg.clone(), schedule: sched.clone(), trigger: None, remove: None, imm_stop: false, late_add: Some(ai), late_publish };
                             if let Some((k, w)) = run_case(&case, &mut g) {
                                 found.entry(k).or_insert((w, case));
                             }
@@ -453,7 +500,7 @@ pub fn run(thorough: bool) -> i32 {
                 if code % 7 == 0 {
                     for ti in 0..npoll {
                         for dt in [None, Some(2u64)] {
-                            let case = Case { cfg: cfg.clone(), schedule: sched.clone(), trigger: Some((ti, dt)), remove: None, imm_stop: false };
+                            let case = Case { cfg: cfg.clone(), schedule: sched.clone(), trigger: Some((ti, dt)), remove: None, imm_stop: false, late_add: None, late_publish: false };
                             if let Some((k, w)) = run_case(&case, &mut g) {
                                 found.entry(k).or_insert((w, case));
                             }
@@ -465,7 +512,7 @@ pub fn run(thorough: bool) -> i32 {
         },
         |_, (ci, _)| {
             let mut f: std::collections::BTreeMap<String, (String, Case)> = Default::default();
-            f.insert("C14/hang".into(), ("schedule sweep did not finish in 300 s (a read loop that never returns?)".into(), Case { cfg: cfgs[*ci].clone(), schedule: vec![], trigger: None, remove: None, imm_stop: false }));
+            f.insert("C14/hang".into(), ("schedule sweep did not finish in 300 s (a read loop that never returns?)".into(), Case { cfg: cfgs[*ci].clone(), schedule: vec![], trigger: None, remove: None, imm_stop: false, late_add: None, late_publish: false }));
             (G::default(), f)
         },
     );
@@ -479,6 +526,7 @@ pub fn run(thorough: bool) -> i32 {
         g.triggers_accepted += gg.triggers_accepted;
         g.fdt_reemissions += gg.fdt_reemissions;
         g.removals += gg.removals;
+        g.late_adds += gg.late_adds;
         g.removals_mid_transfer += gg.removals_mid_transfer;
         g.outcomes.extend(gg.outcomes.iter());
         for (key, (what, case)) in found {
@@ -501,6 +549,7 @@ pub fn run(thorough: bool) -> i32 {
     rep.guard("triggers_accepted", g.triggers_accepted);
     rep.guard("fdt_instance_reemissions", g.fdt_reemissions);
     rep.guard("removals_accepted", g.removals);
+    rep.guard("late_adds", g.late_adds);
     rep.guard("removals_during_a_transfer", g.removals_mid_transfer);
     rep.sample(json!({"cfg": cfgs[7], "schedule": [0, 1, 5, 0, 2], "trigger": null, "meaning": "clock advance in ticks of 250 ms before each poll (drain until None)"}));
     rep.assume("carousel clause is checked literally for max_transfer_count = 1 (DESIGN §5); an accepted trigger_transfer_at resets the carousel reference and replaces the start gate by its timestamp");
